@@ -799,13 +799,27 @@ func c03KindAt(ops []string, i int) string {
 			cur, re = len(kinds)-1, false
 		}
 	}
+	// a history that has installed caches of both families (FIFO keeps the used block it hands out, the others give it
+	// away) can move one block between two tables: recorded finding c03.rd=1.*.cross-kind.* (bg.lent remembers one loan)
+	fifoFam, otherFam := false, false
+	for _, k := range kinds {
+		if strings.Contains(k, "FIFO") {
+			fifoFam = true
+		} else {
+			otherFam = true
+		}
+	}
+	cross := ""
+	if fifoFam && otherFam {
+		cross = ".cross-kind"
+	}
 	if cur < 0 {
-		return "none"
+		return "none" + cross
 	}
 	if re {
-		return kinds[cur] + ".reattached"
+		return kinds[cur] + ".reattached" + cross
 	}
-	return kinds[cur]
+	return kinds[cur] + cross
 }
 
 // c03RaceShape classifies a history by what can remove a member from the cache between the moment the
@@ -1205,6 +1219,20 @@ func checkC03(c *ctx) {
 		if x.judge(cs, ans, st, msg, fr, false) {
 			lent = "0"
 		}
+		if st != "ok" {
+			p0, _ = c03Start()
+		}
+	}
+	// A block on loan from a FIFO is Put into an LRU after the FIFO has been detached; the LRU later hands it over as the
+	// reader's own while the detached FIFO still indexes it; it is recycled; the FIFO, attached again, answers with
+	// another member's data (recorded finding: theorem Hts.Props.C03.all_kinds_transparent_full_false).
+	{
+		cs := c03Case{Payloads: []string{"414141414141", "424242424242", "43434343"}, Rd: 1, Tag: "witness-cross-kind",
+			Ops: []string{"cF,4", "r8", "s0,0", "cL,1", "s2,0", "r1", "c=0", "s1,0", "c=1", "s0,0", "c-", "s2,0", "c=0", "s0,0", "r2"}}
+		ans, st, msg, fr := p0.ask(cs)
+		res.eval("witness-cross-kind", true)
+		res.hist("witness: a block moves between a FIFO and an LRU through SetCache")
+		x.judge(cs, ans, st, msg, fr, false)
 		if st != "ok" {
 			p0, _ = c03Start()
 		}
